@@ -100,7 +100,7 @@ def run():
         chk.corr("function-level max_list_idx (hill-climbing window pick) vs Tracker.maxListIdx incl. ties", fl[0], fl[1], {("maxidx",)})
 
     def stage():
-        seeds = [C.rng(f"C09-seed-{i}").randrange(100000) for i in range(6 if quick else 20)]
+        seeds = [C.rng(f"C09-seed-{i}").randrange(100000) for i in range(C.T(6, 20))]
         fails, keys = [], set()
         res = sign_test(r, quick, gen.ALL_OPTIMIZERS, seeds)
         n = 0
